@@ -526,6 +526,9 @@ func (h *H) sampleQuiet() {
 			want := min(u+infl, w.curLimit())
 			if infl < want {
 				h.viol("C03", "C03.underuse", fmt.Sprintf("%d jobs in flight at rest with %d runnable and limit %d", infl, u+infl, w.curLimit()))
+				if len(w.Qs) > 1 {
+					h.viol("C15", "C15.starved", "with several queues bound a running worker at rest has a free slot and leaves a queue's pending job undispatched")
+				}
 			}
 		}
 	}
